@@ -112,8 +112,10 @@ func (its *TransactionDatatype) BeginTransaction(
 	txCtx *TransactionContext,
 	newTxnOp bool,
 ) *TransactionContext {
-	if its.isLocked && its.txCtx == txCtx {
-		return nil // called after DoTransaction() succeeds.
+	if txCtx != nil && its.txCtx == txCtx {
+		// called inside the transaction that owns the lock (after DoTransaction() began it);
+		// a caller outside any transaction (txCtx == nil) must always take the lock
+		return nil
 	}
 	its.txCtx = its.setTransactionContextAndLock(tag)
 	if newTxnOp {
@@ -179,8 +181,8 @@ func (its *TransactionDatatype) unlock() {
 	if its.isLocked {
 		its.txCtx = nil
 		its.success = true
+		its.isLocked = false // before releasing: the next owner sets it again
 		its.mutex.Unlock()
-		its.isLocked = false
 	}
 }
 
